@@ -11,6 +11,8 @@ class Context:
     def __init__(self):
         self._cell_translations: Dict[str, str] = {}
         self._sub_cell_translations: Dict[str, List] = {}
+        # uids of the cells whose formulas are being translated right now (the current dependency path)
+        self.cells_in_progress: set = set()
         self._titles: Dict[str, int] = {}
         self._sheets_size: List[Dict[str, int]] = []
 
